@@ -57,6 +57,8 @@ def build_inputs(ctx, rows_r, rows_nm, n_mut):
     seen = set()
 
     def add(api, text, kind):
+        if _HUGE_SHIFT.search(text):
+            return           # 1 << 10**9 ... : resource exhaustion is not part of the input space
         if (api, text) not in seen:
             seen.add((api, text))
             inputs.append((api, text, kind))
@@ -122,10 +124,12 @@ def run(ctx):
     san = 0
     if not quick:
         d = core.build_backend(extra_flags=["-fsanitize=address,undefined", "-fno-omit-frame-pointer", "-O1",
-                                            "-shared-libasan", "-fno-sanitize=function,alignment"], cc="clang", tag="asan")
-        sres = pf.run_compiled(ctx.tmp, env.api_name, tstrings, env=pf.asan_env(d), tag="asan", timeout=3000)
+                                            "-shared-libasan", "-fno-sanitize=function,alignment",
+                                            "-fsanitize-recover=address,undefined"], cc="clang", tag="asan")
+        sres = pf.run_compiled(ctx.tmp, env.api_name, tstrings, env=pf.asan_env(d, ctx.tmp), tag="asan", timeout=3000)
         for t, (cls, msg) in zip(tstrings, sres):
-            recs.append({"ffi": "compiled", "api": "typeof", "cls": cls, "origin": "-", "site": "asan", "msg": msg,
+            recs.append({"ffi": "compiled", "api": "typeof", "cls": cls, "origin": "-",
+                         "site": "asan:" + pf.crash_site(msg) if cls == "crash" else "asan", "msg": msg,
                          "text": t, "kind": "compiled-sanitized"})
         san = len(sres)
     # ---------------------------------------------------------------- code -> spec: TLC validates
@@ -134,7 +138,7 @@ def run(ctx):
         r = recs[idx]
         key = "%s:%s:%s:%s" % (r["ffi"], r["api"], r["cls"], r["site"])
         ctx.violation(key, "%s: %s(%r) -> %s: %s" % (CLAUSE.get(clause, clause), r["api"], r["text"][:200], r["cls"], r["msg"]),
-                      {"ffi": r["ffi"], "api": r["api"], "text": r["text"], "sanitized": r["site"] == "asan"})
+                      {"ffi": r["ffi"], "api": r["api"], "text": r["text"], "sanitized": r["site"].startswith("asan")})
     vk = {}
     for idx, clause in bad:
         r = recs[idx]
@@ -165,6 +169,10 @@ def run(ctx):
         "memory safety is observed by ASan/UBSan on the replayed inputs (thorough tier), not specified"]
 
 
+import re
+_HUGE_SHIFT = re.compile(r"<<[-+~!(\s]*\d{4,}|<<[-+~!(\s]*0[xX][0-9a-fA-F]{3,}")
+
+
 def _encodable(t):
     try:
         t.encode("utf-8")
@@ -183,10 +191,12 @@ def replay(ctx, obj):
         e = None
         if rp.get("sanitized"):
             d = core.build_backend(extra_flags=["-fsanitize=address,undefined", "-fno-omit-frame-pointer", "-O1",
-                                                "-shared-libasan", "-fno-sanitize=function,alignment"], cc="clang", tag="asan")
-            e = pf.asan_env(d)
+                                                "-shared-libasan", "-fno-sanitize=function,alignment",
+                                            "-fsanitize-recover=address,undefined"], cc="clang", tag="asan")
+            e = pf.asan_env(d, ctx.tmp)
         (cls, msg), = pf.run_compiled(ctx.tmp, env.api_name, [rp["text"]], env=e, tag="replay")
-        recs = [{"ffi": "compiled", "api": "typeof", "cls": cls, "origin": "-", "site": "asan" if e else "-", "msg": msg,
+        recs = [{"ffi": "compiled", "api": "typeof", "cls": cls, "origin": "-",
+                 "site": ("asan:" + pf.crash_site(msg) if cls == "crash" else "asan") if e else "-", "msg": msg,
                  "text": rp["text"]}]
     bad = checked_count(ctx, recs)
     for idx, clause in bad:
